@@ -252,8 +252,9 @@ def o_reject(case, T):
 def s_snap(draw):
     base = draw(s_base())
     m = draw(s_members(2, 2))
-    fx = draw(st.sampled_from([0.0, 1e-10, 1e-3, 0.25, 0.3, 0.49, 0.5, -0.3, -0.49, 0.75, -0.999]))
-    fy = draw(st.sampled_from([0.0, 1e-10, 1e-3, 0.25, 0.3, 0.49, 0.5, -0.3, -0.49, 0.75, -0.999]))
+    fr = [0.0, 1e-10, 1e-3, 0.25, 0.3, 0.49, 0.5, -0.3, -0.49, 0.75, -0.999, 1e-7, -4e-7, 3e-6, 2e-5]
+    fx = draw(st.sampled_from(fr))
+    fy = draw(st.sampled_from(fr))
     return {"base": base, "crs": draw(crs_tags()), "members": m, "frac": [fx, fy]}
 
 
@@ -277,7 +278,15 @@ def o_snap(case, T):
     tol = Fr(1, 10**6)
     a_, b_, c_, d_, e_, f_ = P.m
     require(abs(a_ - 1) < tol and abs(e_ - 1) < tol and abs(b_) < tol and abs(d_) < tol, "snap_to changed scale/orientation")
-    require(abs(c_ - round(c_)) < tol and abs(f_ - round(f_)) < tol, "after snap_to grids are offset by (%.9g, %.9g) px - not a whole-pixel shift", float(c_), float(f_))
+    # "onto that grid": closer than the offsets the set operations are required to reject (>= 1e-7 px, see reject) ...
+    on_grid = Fr(1, 10**8) * 2
+    require(abs(c_ - round(c_)) < on_grid and abs(f_ - round(f_)) < on_grid, "after snap_to grids are offset by (%.9g, %.9g) px - not a whole-pixel shift", float(c_ - round(c_)), float(f_ - round(f_)))
+    # ... and by the library's own standard: the snapped box combines with the other grid
+    try:
+        _ = out | other
+        _ = out.overlap_roi(other)
+    except ValueError as e:
+        raise Violation("snap_to result is still not on the other grid: %s" % str(e)[:120])
     Q = Fs.inv() * Fout  # how far the box moved, in its own pixels
     mx, my = Q.m[2], Q.m[5]
     require(abs(mx) <= Fr(1, 2) + tol and abs(my) <= Fr(1, 2) + tol, "snap_to moved the box by (%.9g, %.9g) px (> 0.5)", float(mx), float(my))
@@ -397,10 +406,24 @@ def o_enclosing(case, T):
     require(min(px) >= -slack and max(px) <= nx + slack and min(py) >= -slack and max(py) <= ny + slack,
             "enclosing %r does not cover the region: region spans x[%.7g,%.7g] y[%.7g,%.7g] in its pixels, shape %r", out.shape, float(min(px)), float(max(px)), float(min(py)), float(max(py)), (ny, nx))
     # excess < 1 px per side (one pixel minimum)
+    # "less than one pixel": strictly, where the arithmetic is exact (a region edge exactly on a pixel boundary needs
+    # no extra pixel); with the stated slack otherwise
+    import math as _m
+
+    def _pow2(v):
+        return v != 0 and _m.frexp(abs(v))[0] == 0.5
+
+    # (exact = the pixel<->world maps are exact in floats: axis-aligned, power-of-two pixel size; otherwise the inverse
+    # map carries rounding noise and a boundary value like 3.0000000000000004 legitimately rounds outwards)
+    strict = fam_exact and case["mode"] == "same" and src.affine.b == 0 and src.affine.d == 0 and _pow2(src.affine.a) and _pow2(src.affine.e)
     for lo, hi, n, ax in ((min(px), max(px), nx, "x"), (min(py), max(py), ny, "y")):
-        require(lo < 1 + slack, "enclosing exceeds region by %.7g px on the low %s side", float(lo), ax)
-        if n > 1:
+        require(lo < 1 + (0 if strict and hi > lo else slack), "enclosing exceeds region by %.7g px on the low %s side", float(lo), ax)
+        if n > 1 and (hi - lo) >= 1:
+            require(n - hi < 1 + (0 if strict else slack), "enclosing exceeds region by %.7g px on the high %s side (n=%d)", float(n - hi), ax, n)
+        elif n > 1:
             require(n - hi < 1 + slack, "enclosing exceeds region by %.7g px on the high %s side (n=%d)", float(n - hi), ax, n)
+    if strict and any(v == int(v) for v in (max(px), max(py))):
+        T.cls("region_edge_on_pixel_boundary")
     T.nontrivial()
     T.cls("mode:" + case["mode"])
     T.cls("bbox" if case["as_bbox"] else "polygon")
